@@ -108,6 +108,46 @@ def parent(chk, F):
         raise AnchorLost("no `match pending.await` in the request loop")
     mnode = m[2]
 
+    # ---- (a2) the time limit: what is awaited is timeout(<the service's limit>, race(interrupt, read reply)),
+    # built after the request was written, and the Timeout reply names that same limit -------------------
+    def is_limit(e, lets):
+        """e is `S::timeout(&config)` or a local initialised (once, immutably) by it."""
+        if e.get("k") == "Call" and e["f"].get("k") == "Path" and e["f"]["r"].get("path", "").endswith("Service::timeout"):
+            return True
+        ln = H.local_name(e) if e.get("k") == "Path" else None
+        if ln:
+            for s in lets:
+                if s["pat"].get("lid") == ln[1] and s.get("init") is not None and not s["pat"].get("mut"):
+                    return is_limit(s["init"], lets)
+        return False
+    all_lets = [s for k, s in H.stmts_of(outer_loop["body"]) if k == "let"] + [s for k, s in H.stmts_of(inner["body"]) if k == "let"]
+    tcalls = [n for n in hir_walk(inner["body"]) if H.is_path_call(n, "future::timeout::timeout")]
+    if len(tcalls) != 1:
+        raise AnchorLost("expected exactly one async_std timeout(..) in the request loop, found %d" % len(tcalls))
+    tc = tcalls[0]
+    chk.decide(len(tc["args"]) == 2 and is_limit(tc["args"][0], all_lets), "time-limit", FK, "duration-is-service-limit",
+               "%s:%d" % (file, tc["line"]),
+               "the duration given to timeout(..) is S::timeout(&config) itself",
+               "the duration given to timeout(..) is `%s`, not the service's limit S::timeout(&config): a request can be "
+               "reported as timed out (or not) by something other than its own running time" % H.expr_str(tc["args"][0], 80))
+    wline = next((s[1] for s in seq if s[0] == "WRITE"), None)
+    mline = next((s[1] for s in seq if s[0] == "MATCH"), None)
+    # the statement holding the timeout call sits between WRITE and MATCH (or is the MATCH scrutinee)
+    holder = [s for s in seq if any(n is tc for n in hir_walk(s[2]))]
+    pos = {id(s): i for i, s in enumerate(seq)}
+    wi = next((i for i, s in enumerate(seq) if s[0] == "WRITE"), -1)
+    mi = next((i for i, s in enumerate(seq) if s[0] == "MATCH"), -1)
+    chk.decide(bool(holder) and wi >= 0 and wi < pos[id(holder[0])] <= mi, "time-limit", FK, "timer-starts-after-write",
+               "%s:%d" % (file, tc["line"]),
+               "the timed future is created after the request was written and before the reply is awaited",
+               "timeout(..) is not created between writing the request and awaiting the reply")
+    # no Instant/elapsed arithmetic feeds the limit (covered by is_limit); the Timeout reply names the limit
+    tos = [n for n in hir_walk(inner["body"]) if n.get("k") == "Call" and n["f"].get("k") == "Path"
+           and n["f"]["r"].get("ctor_of", "").endswith("Error::Timeout")]
+    chk.decide(len(tos) == 1 and is_limit(tos[0]["args"][0], all_lets), "time-limit", FK, "timeout-reply-names-limit",
+               "%s:%d" % (file, tos[0]["line"] if tos else 0),
+               "Error::Timeout carries S::timeout(&config)", "Error::Timeout(..) does not carry the service's limit")
+
     # ---- (b) arm table -----------------------------------------------------------------------------
     n_err = 0
     for a in mnode["arms"]:
